@@ -297,7 +297,7 @@ package stream
 // coupling relation; every obligation below is "the Stream method's contract implies the interface method's contract".
 //@ refine github.com/bbockelm/cedar/message.StreamInterface.IsEncrypted by (*github.com/bbockelm/cedar/stream.Stream).IsEncrypted coupling strmEncrypting == impl.encrypted && strmKeyed == (impl.gcm != nil)
 //@ refine github.com/bbockelm/cedar/message.StreamInterface.ReadFrame by (*github.com/bbockelm/cedar/stream.Stream).ReadFrame coupling strmEncrypting == impl.encrypted && strmKeyed == (impl.gcm != nil) && digestsWF(impl)
-//@ refine github.com/bbockelm/cedar/message.StreamInterface.WriteFrame by (*github.com/bbockelm/cedar/stream.Stream).WriteFrame coupling strmEncrypting == impl.encrypted && strmKeyed == (impl.gcm != nil) && digestsWF(impl) && buffersSeparate(impl) assuming ref(data) != ref(impl.frameBuf) || ref(data) == 0
+//@ refine github.com/bbockelm/cedar/message.StreamInterface.WriteFrame by (*github.com/bbockelm/cedar/stream.Stream).WriteFrame coupling strmEncrypting == impl.encrypted && strmKeyed == (impl.gcm != nil) && digestsWF(impl) && buffersSeparate(impl) assuming ref(data) != ref(impl.frameBuf) || ref(data) == 0 hidden elems(impl.frameBuf)
 
 //@ func (*Stream).IsEncrypted
 //@   props C09 C14
